@@ -123,6 +123,10 @@ class ioapi_base(PseudoNetCDFFile):
         out = cls.from_ncvs(**invarkw)
         if fileattrs is None:
             fileattrs = {}
+        if 'TFLAG' in invarkw and invarkw['TFLAG'].shape[0] > 0:
+            # the time flags that were given say when the file starts
+            fileattrs.setdefault('SDATE', int(invarkw['TFLAG'][0, 0, 0]))
+            fileattrs.setdefault('STIME', int(invarkw['TFLAG'][0, 0, 1]))
         fileattrs.setdefault('SDATE', 1970001)
         fileattrs.setdefault('STIME', 0)
         fileattrs.setdefault('TSTEP', 10000)
